@@ -9,6 +9,8 @@ package main
 import (
 	"bytes"
 	"crypto"
+	_ "crypto/sha1"
+	_ "crypto/sha256"
 	"crypto/sha512"
 	"fmt"
 
@@ -383,6 +385,30 @@ func table() []entry {
 		{name: "h2c.ExpandMessageXMD(out=len b,dst=b,msg=b)", valid: nil, good: c32(msgM), big: true, call: func(b []byte) (bool, string) {
 			err := h2c.ExpandMessageXMD(b, crypto.SHA512, b, b)
 			return e(err) || len(b) == 0 || len(b) > 255*64, sNone
+		}},
+		{name: "h2c.ExpandMessageXMD(SHA3-256,out=len b,dst=b,msg=b)", valid: nil, good: c32(msgM), big: true, call: func(b []byte) (bool, string) {
+			err := h2c.ExpandMessageXMD(b, crypto.SHA3_256, b, b)
+			return e(err) || len(b) == 0 || len(b) > 255*32, sNone
+		}},
+		{name: "h2c.ExpandMessageXMD(SHA-256,out=len b,dst=b,msg=b)", valid: nil, good: c32(msgM), call: func(b []byte) (bool, string) {
+			err := h2c.ExpandMessageXMD(b, crypto.SHA256, b, b)
+			return e(err) || len(b) == 0 || len(b) > 255*32, sNone
+		}},
+		{name: "h2c.ExpandMessageXMD(SHA-384/SHA3-512/SHA-512_256,dst=b,msg=b)", valid: nil, good: c32(msgM), call: func(b []byte) (bool, string) {
+			out := make([]byte, 64)
+			e1 := h2c.ExpandMessageXMD(out, crypto.SHA384, b, b)
+			e2 := h2c.ExpandMessageXMD(out, crypto.SHA3_512, b, b)
+			e3 := h2c.ExpandMessageXMD(out, crypto.SHA512_256, b, b)
+			e4 := h2c.ExpandMessageXMD(out, crypto.SHA1, b, b) // refused: digest too short
+			return e(e1) && e(e2) && e(e3) && !e(e4), sNone
+		}},
+		{name: "h2c generic suites(SHA3-256 / SHAKE128,dst=b,msg=b)", valid: nil, good: c32(msgM), call: func(b []byte) (bool, string) {
+			_, e1 := h2c.Edwards25519_XMD_ELL2_RO(crypto.SHA3_256, b, b)
+			_, e2 := h2c.Edwards25519_XMD_ELL2_NU(crypto.SHA256, b, b)
+			_, e3 := h2c.Ristretto255_XMD_R255MAP_RO(crypto.SHA3_256, b, b)
+			_, e4 := h2c.Edwards25519_XOF_ELL2_RO(sha3.NewShake128(), b, b)
+			_, e5 := h2c.Edwards25519_XOF_ELL2_NU(sha3.NewShake256(), b, b)
+			return e(e1) && e(e2) && e(e3) && e(e4) && e(e5), sNone
 		}},
 		{name: "h2c.ExpandMessageXOF(out=len b,dst=b,msg=b)", valid: nil, good: c32(msgM), big: true, call: func(b []byte) (bool, string) {
 			err := h2c.ExpandMessageXOF(b, sha3.NewShake128(), b, b)
